@@ -60,6 +60,8 @@ FEATURES = {
     "lambda-and-comp": ["ql = lambda qa1, qa2=2: [qa1 + qa3 for qa3 in range(qa2)]", "print('lc', ql(1))"],
     "return-in-loop": ["def qf4():", "    for qx in range(5):", "        while True:", "            if qx == 2:", "                return qx", "            break", "print('ril', qf4())"],
     "chained-assign": ["qm = qn2 = [1]", "print('ca', qm is qn2)"],
+    "chained-destructure": ["(qa, qb) = qrow = [1, 2]", "qh, *qt = qline = 'abc'", "print('cd', type(qrow).__name__, qrow, type(qline).__name__, qa, qb, qh, qt)"],
+    "nested-destructure-order": ["(qa, qb), qc = (1, 2), 3", "for (qd, qe), qf in [((4, 5), 6)]:", "    pass", "print('ndo', qa, qb, qc, qd, qe, qf)"],
     "if-elif": ["qo = 2", "if qo == 1:", "    print('one')", "elif qo == 2:", "    print('two')", "else:", "    print('other')"],
     "fstring": ["qp = 3", "print(f'{qp!r:>{qp}}')"],
     "walrus": ["print((qq := 4) + qq)"],
@@ -122,8 +124,8 @@ HELPER_TABLE = {
     'hasattr': ["aug-attr", "aug-name", "aug-subscript", "aug-uses", "global-store", "nonlocal-store", "while", "while-else-break", "while-else-test-uses", "while-test-uses"],
     'iter': ["for-break", "for-break-body-uses", "for-iter-uses", "return-in-loop", "return-in-loop-uses"],
     'next': ["for-break", "for-break-body-uses", "for-iter-uses", "return-in-loop", "return-in-loop-uses"],
-    'tuple': ["destructure", "destructure-star", "destructure-uses"],
-    'list': ["destructure-star", "destructure-uses"],
+    'tuple': ["destructure", "destructure-star", "destructure-uses", "chained-destructure", "nested-destructure-order"],
+    'list': ["destructure-star", "destructure-uses", "chained-destructure"],
     'slice': ["aug-subscript", "aug-uses", "slice-store"],
     'globals': ["from-import", "global-store", "global-store-uses"],
     'locals': ["from-import"],
